@@ -2,6 +2,7 @@
 \* treadmill: unbounded L1 seen through a window of MaxBlock blocks
 CONSTANTS
   Rule = "naive"
+  StoreRead = "snapshot"
   Treadmill = TRUE
   Record = FALSE
   MaxBlock = 4
